@@ -260,6 +260,9 @@ func propImportPrivate(t *rapid.T) {
 	if err != nil {
 		t.Fatalf("NewPrivateKey(%x) rejected a valid key: %v", raw, err)
 	}
+	if msg := lib.FirstUsePriv(t, k, v, "first-use"); msg != "" {
+		t.Fatalf("%s (key %x)", msg, raw)
+	}
 	raw[0] ^= 0xff // the caller's buffer is not retained
 	if !bytes.Equal(k.Bytes(), orig) || lib.ScInt(k.Scalar()).Cmp(v) != 0 {
 		t.Fatalf("NewPrivateKey(%x): Bytes()/Scalar() do not return the key", orig)
